@@ -21,10 +21,10 @@ FUNCTIONS = ["ak.ghist.ReposCollection.make_reports_data", "ak.ghist.ProjectRepo
 BOUNDS = {
     "quick": {"graphs": "16 commit-graph shapes of <= 6 commits (linear, fork+merge, diamond, two roots, parallel tagged sub-branches, merge of release into master, criss-cross)",
               "branches": "master + 1 release branch whose head is ANY commit (incl. equal to / inside / ahead of master's history); 2 release branches for 6 shapes",
-              "placements": "ALL subsets of commits carrying a build tag x ALL subsets of commits whose message matches (swept natively)", "names": "BranchName order: ALL ints a,b,c,d >= 0 (symbolic)"},
+              "placements": "ALL subsets of commits carrying a build tag x ALL subsets of commits whose message matches (swept natively)", "times": "commit spacing of 1 minute, 2 days or ~4.6 days (whole history inside the 30-day window) for the 2-release shards", "names": "BranchName order: ALL ints a,b,c,d >= 0 (symbolic)"},
 }
 BOUNDS["thorough"] = dict(BOUNDS["quick"], branches="master + 2 release branches with heads at ANY commits, all shapes")
-OUTSIDE = ["commit times outside the 30-day window (all stub commits lie within one day)", "GitRepo's file-system ref reading", "several build tags on one commit", "histories beyond the shapes/sizes",
+OUTSIDE = ["commit times outside the 30-day window", "GitRepo's file-system ref reading", "several build tags on one commit", "histories beyond the shapes/sizes",
            "which of two incomparable earliest builds (parallel tagged sub-branches) lists a commit: either is accepted"]
 STUBS = ["in-memory git repository: commit.hexsha/parents/message/committed_date/tree/author, repo.commit(), repo.iter_refs(), repo.remotes['origin'].refs, git_dir"]
 ASSUMPTIONS = ["'builds of a branch' = tagged commits and the head that are reachable from the head and not reachable from any lower-sorted branch head"]
@@ -84,12 +84,12 @@ class _Blob:
 
 
 class Commit:
-    def __init__(self, cid, message, t0, files=None):
+    def __init__(self, cid, message, t0, files=None, step_s=60):
         self.cid = cid
         self.hexsha = format(cid, "040x")
         self.parents: List["Commit"] = []
         self.message = message
-        self.committed_date = t0 + cid * 60
+        self.committed_date = t0 + cid * step_s
         self.author = _Author()
         self.tree = _Tree({p: _Blob(t) for p, t in (files or {}).items()})
 
@@ -109,11 +109,11 @@ class _Remote:
 
 
 class StubRepo:
-    def __init__(self, name, shape, messages, tags, heads, t0=1_700_000_000, files=None):
+    def __init__(self, name, shape, messages, tags, heads, t0=1_700_000_000, files=None, step_s=60):
         """heads: {branch ('master' | 'release/1.0' ...): commit id}; tags: {commit id: tag string}"""
         self.git_dir = f"/stub/{name}"
         self.working_dir = self.git_dir
-        self.commits = {cid: Commit(cid, messages.get(cid, "other"), t0, (files or {}).get(cid)) for cid in shape}
+        self.commits = {cid: Commit(cid, messages.get(cid, "other"), t0, (files or {}).get(cid), step_s) for cid in shape}
         for cid, ps in shape.items():
             self.commits[cid].parents = [self.commits[p] for p in ps]
         self.by_sha = {c.hexsha: c for c in self.commits.values()}
@@ -217,15 +217,18 @@ def check_report(shape, heads: Dict[str, int], tagged: Set[int], matching: Set[i
             raise Violation(f"not-merged :: {what}: branch {b}: 'not merged' lists {sorted(not_merged)}, expected exactly {want_nm}")
 
 
-def run_case(shape, heads, tagged, matching) -> None:
+TIME_STEPS = [60, 2 * 86400, 4 * 86400 + 50000]      # seconds between consecutive commits: all histories stay inside the 30-day window
+
+
+def run_case(shape, heads, tagged, matching, step_s=60) -> None:
     import ak.ghist as G
     messages = {c: ("BUG-1 fix" if c in matching else "other BUG-10x") for c in shape}
     tags = {c: f"build_{100 + c}_release_1_0_success" for c in tagged}
-    repo = StubRepo("main", shape, messages, tags, heads)
+    repo = StubRepo("main", shape, messages, tags, heads, step_s=step_s)
 
     class Coll(G.ReposCollection):
         _REPOS_TYPES = {"main": G.ProjectRepo}
-    what = f"graph {shape} heads {heads} tags {sorted(tagged)} matching {sorted(matching)}"
+    what = f"graph {shape} heads {heads} tags {sorted(tagged)} matching {sorted(matching)} commit-spacing {step_s}s"
     try:
         coll = Coll({"main": G.ProjectRepo("main", repo, "origin")})
         data = coll.make_reports_data("BUG-1 ")
@@ -235,8 +238,8 @@ def run_case(shape, heads, tagged, matching) -> None:
     check_report(shape, heads, tagged, matching, rgraph, what)
 
 
-def h_history(shape_i: int, h1: int, h2: int, shard=None) -> None:
-    reject_unless(shape_i == shard["shape"])
+def h_history(shape_i: int, h1: int, h2: int, tp: int, shard=None) -> None:
+    reject_unless(shape_i == shard["shape"] and tp in shard.get("time_profiles", [0]))
     shape = SHAPES[shard["shape"]]
     n = len(shape)
     nrel = shard["releases"]
@@ -245,7 +248,7 @@ def h_history(shape_i: int, h1: int, h2: int, shard=None) -> None:
         reject_unless(1 <= h2 <= n)
     else:
         reject_unless(h2 == 0)
-    h1, h2 = realize(h1), realize(h2)
+    h1, h2, tp = realize(h1), realize(h2), realize(tp)
     heads = {"master": n}
     if nrel >= 1:
         heads["release/1.9"] = h1
@@ -259,7 +262,7 @@ def h_history(shape_i: int, h1: int, h2: int, shard=None) -> None:
             for matching in itertools.chain.from_iterable(itertools.combinations(ids, k) for k in range(len(ids) + 1)):
                 if not matching:
                     continue
-                run_case(shape, heads, set(tagged), set(matching))
+                run_case(shape, heads, set(tagged), set(matching), TIME_STEPS[tp])
 
 
 def replay_h_history(record):
@@ -267,12 +270,12 @@ def replay_h_history(record):
     import ast
     import re
     msg = record.get("message") or ""
-    m = re.search(r"graph (\{.*?\}) heads (\{.*?\}) tags (\[.*?\]) matching (\[.*?\])", msg)
+    m = re.search(r"graph (\{.*?\}) heads (\{.*?\}) tags (\[.*?\]) matching (\[.*?\]) commit-spacing (\d+)s", msg)
     if not m:
         return "cannot parse the failing case"
     shape, heads, tags, matching = [ast.literal_eval(m.group(i)) for i in (1, 2, 3, 4)]
     try:
-        run_case(shape, heads, set(tags), set(matching))
+        run_case(shape, heads, set(tags), set(matching), int(m.group(5)))
     except Violation as e:
         return str(e)
     return None
@@ -324,7 +327,7 @@ def jobs(tier: str) -> List[Job]:
         js.append(Job(__name__, "h_history", shard={"shape": si, "releases": 1}, budget_s=1500 if t else 110, label=f"history:shape{si}:1release", must_exhaust=True))
     for si in (range(len(SHAPES)) if t else (0, 1, 3, 6, 9, 13)):
         if len(SHAPES[si]) <= (6 if t else 5):
-            js.append(Job(__name__, "h_history", shard={"shape": si, "releases": 2}, budget_s=3000 if t else 110, label=f"history:shape{si}:2releases", must_exhaust=not t))
+            js.append(Job(__name__, "h_history", shard={"shape": si, "releases": 2, "time_profiles": [0, 1, 2]}, budget_s=3000 if t else 110, label=f"history:shape{si}:2releases", must_exhaust=not t))
     js.append(Job(__name__, "h_branch_order", shard={}, budget_s=300 if t else 100, label="branch-order:symbolic", must_exhaust=True))
     js.append(Job(__name__, "h_branch_parse", shard={}, budget_s=300 if t else 100, label="branch-order:parsed-names"))
     return js
